@@ -1,0 +1,34 @@
+//go:build verif
+
+package main
+
+import (
+	"encoding/json"
+	"time"
+
+	"github.com/ludo-technologies/pyscn/internal/analyzer"
+	"github.com/ludo-technologies/pyscn/service"
+)
+
+func init() {
+	// maxdepth: calculateMaxDepth on a given import graph; returns the depth and the time it took.
+	register("maxdepth", func(raw json.RawMessage) (interface{}, error) {
+		var req struct {
+			Modules []string    `json:"modules"`
+			Edges   [][2]string `json:"edges"`
+		}
+		if err := json.Unmarshal(raw, &req); err != nil {
+			return nil, err
+		}
+		g := analyzer.NewDependencyGraph("/p")
+		for _, m := range req.Modules {
+			g.AddModule(m, "/p/"+m+".py")
+		}
+		for _, e := range req.Edges {
+			g.AddDependency(e[0], e[1], analyzer.DependencyEdgeImport, nil)
+		}
+		t0 := time.Now()
+		d := service.VerifCalculateMaxDepth(g)
+		return map[string]interface{}{"depth": d, "micros": time.Since(t0).Microseconds()}, nil
+	})
+}
